@@ -413,3 +413,13 @@ def case_hardswish_tolerance():
 
 
 CASES["hardswish_tolerance"] = case_hardswish_tolerance
+
+
+def case_ovr_bias():
+    w = np.ones((4, 3), dtype=np.float32)
+    return _override_case([helper.make_node("Gemm", ["x", "w", "b"], ["y"], transB=1)], [2, 3],
+                          {"w": w, "b": np.zeros((4,), dtype=np.float32)}, {"w": w, "b": np.full((4,), 5.0, dtype=np.float32)}, [2, 4],
+                          "Gemm(x, w, b), default b = 0")
+
+
+CASES["ovr_bias"] = case_ovr_bias
